@@ -279,6 +279,8 @@ EDITS = [
     # (a class is a dependency as a whole: every user of Conf is in the cone of an edit anywhere in the class body)
     ("class attribute read without a call", "corp/helpers.py", "LIMIT = 5", "LIMIT = 6", ["/c/clsattr", "/c/method", "/c/rt"]),
     ("unused variable", "corp/consts.py", "UNUSED = 10", "UNUSED = 11", []),
+    ("two function definitions reordered", "corp/helpers.py", 'def untouched():\n    return "constant"\n\ndef weight():\n    return 7\n', 'def weight():\n    return 7\n\ndef untouched():\n    return "constant"\n', []),
+    ("comment and blank lines added between definitions", "corp/helpers.py", "def weight():", "# a remark about weights\n\n\ndef weight():", []),
     ("unrelated definition added", "corp/helpers.py", "def untouched():", "def brand_new():\n    return 0\n\ndef untouched():", []),
     ("non-accepted module body", "extmod.py", "return x * 100", "return x * 200", []),
 ]
